@@ -43,6 +43,20 @@ EXTRA = {
 }
 
 
+# implementation files a property quantifies over although its anchors do not list them (tier 3)
+EXTRA_FILES = {
+    "C17": ["ndonnx/_core/_numericimpl.py", "ndonnx/_core/_boolimpl.py", "ndonnx/_core/_stringimpl.py", "ndonnx/_core/_shapeimpl.py", "ndonnx/additional/_additional.py", "ndonnx/_array.py"],
+    "C15": ["ndonnx/_core/_numericimpl.py", "ndonnx/_core/_boolimpl.py", "ndonnx/_core/_utils.py", "ndonnx/_corearray.py"],
+    "C16": ["ndonnx/_core/_numericimpl.py", "ndonnx/_opset_extensions.py"],
+    "C07": ["ndonnx/_core/_numericimpl.py"],
+    "C03": ["ndonnx/_core/_numericimpl.py", "ndonnx/_core/_boolimpl.py", "ndonnx/_core/_shapeimpl.py", "ndonnx/_array.py"],
+    "C06": ["ndonnx/_core/_utils.py", "ndonnx/_core/_coreimpl.py", "ndonnx/_funcs.py", "ndonnx/additional/_additional.py"],
+    "C01": ["ndonnx/_core/_utils.py", "ndonnx/_funcs.py", "ndonnx/_data_types/classes.py", "ndonnx/_core/_nullableimpl.py", "ndonnx/_core/_coreimpl.py"],
+    "C18": ["ndonnx/_corearray.py", "ndonnx/_utility.py"],
+    "C19": ["ndonnx/_build.py"],
+}
+
+
 def _strip(node: ast.AST) -> ast.AST:
     for n in ast.walk(node):
         if isinstance(n, (ast.FunctionDef, ast.AsyncFunctionDef, ast.ClassDef, ast.Module)):
@@ -154,7 +168,7 @@ def hashes(prop: str, repo=None) -> list[tuple[str, str]]:
     # third tier: everything else in the files the property is anchored in (functions, and the code outside functions:
     # module-level statements and class bodies — tables, decorators, class attributes)
     rec = next(json.loads(l) for l in open(core.VERIF / "properties.jsonl") if json.loads(l)["id"] == prop)
-    for f in rec.get("anchors", {}).get("files", []) or []:
+    for f in list(rec.get("anchors", {}).get("files", []) or []) + EXTRA_FILES.get(prop, []):
         pth = repo / f
         if not pth.exists():
             rows[f"{f}::<missing>"] = "0" * 20
